@@ -299,6 +299,23 @@ fn run_inner<F: Flavour>(
         }
         None
     };
+    // while every node is alive: neighbour lookups from every node to every key, twice
+    // (lookups must not change any reference count)
+    for _ in 0..2 {
+        for a in owners.iter().flatten() {
+            for k in 0..n + 1 {
+                let r = caught(|| {
+                    let _ = (F::find_out(a, k).map(|x| F::key(&x)), F::find_in(a, k).map(|x| F::key(&x)), F::is_connected(a, k));
+                });
+                if let Caught::Panic(m) | Caught::Abort(m) = r {
+                    return Some(Violation::new("unusable-handle", format!("neighbour lookup failed while all nodes are alive: {m}")));
+                }
+            }
+        }
+        if let Some(v) = check(&owners, &slots, "after neighbour lookups, before any drop") {
+            return Some(v);
+        }
+    }
     if let Some(v) = check(&owners, &slots, "before any drop") {
         return Some(v);
     }
@@ -323,6 +340,18 @@ fn run_inner<F: Flavour>(
         }
         if let Some(v) = check(&owners, &slots, &format!("after drop #{i} ({d:?})")) {
             return Some(v);
+        }
+        // lookups on the nodes still held (node-local: they do not need every neighbour alive
+        // unless they walk the lists, which is done only while all owners are alive)
+        for k in 0..n {
+            if let Some(o) = &owners[k] {
+                let r = caught(|| {
+                    let _ = (F::out_degree(o), F::in_degree(o), F::is_root(o), F::is_leaf(o), F::is_orphan(o));
+                });
+                if let Caught::Panic(m) | Caught::Abort(m) = r {
+                    return Some(Violation::new("unusable-handle", format!("after drop #{i}: node {k} can no longer answer queries: {m}")));
+                }
+            }
         }
     }
     // the program drops everything it still holds
@@ -372,7 +401,7 @@ impl Engine for Lifetime {
         let cfg = GenCfg {
             hub: None,
             provs: vec![Prov::Own, Prov::Clone, Prov::EdgeSrc, Prov::EdgeDst],
-            w: [40, 15, 25, 8, 0, 0, 0],
+            w: [36, 12, 22, 6, 16, 6, 2],
         };
         let nops = rng.below(if tier == Tier::Quick { 10 } else { 25 });
         let mut ops = Vec::new();
